@@ -522,7 +522,10 @@ class _Env(object):
             except OSError:
                 continue
             if isinstance(nm, tuple) and nm[1] != 0:
-                self.addr_of[("inet", nm[1])] = self.addr_of.get(("inet", nm[1]), i)
+                # UDP and TCP have separate port spaces: the kernel may hand the same ephemeral number to a datagram and to a
+                # stream socket (1 case in 250 000 of a thorough run) — the key carries the protocol class
+                dg = k.type == socket.SOCK_DGRAM
+                self.addr_of[("inet", nm[1], dg)] = self.addr_of.get(("inet", nm[1], dg), i)
 
     def files(self):
         """address identities of the unix-socket files that exist in the scratch directory"""
@@ -554,10 +557,11 @@ class _Env(object):
                 try:
                     lis = bool(s.getsockopt(socket.SOL_SOCKET, socket.SO_ACCEPTCONN))
                     nm = s.getsockname()
+                    dg = s.type == socket.SOCK_DGRAM
                 finally:
                     s.detach()
                 if isinstance(nm, tuple):
-                    addr = self.addr_of.get(("inet", nm[1])) if nm[1] else None
+                    addr = self.addr_of.get(("inet", nm[1], dg), self.addr_of.get(("inet", nm[1]))) if nm[1] else None
                     if nm[1] and addr is None:
                         addr = "port?%d" % nm[1]
                 else:
